@@ -367,7 +367,8 @@ func c12DenseRun(d *c12Dense, rows []c12ObsRec) (a int64, ok bool) {
 	return a, true
 }
 
-// c12SpanGarbage mirrors VRead.last_span_garbage: a LAST-n scan over the 24-byte index slots of a variable
+// c12SpanGarbage recognises the pattern of the class variable-last-limit-spans-year-files (fixed in /repo ca55ae9; used for
+// the input-distribution tag only): a LAST-n scan over the 24-byte index slots of a variable
 // bucket that, in an earlier year file, reads (in whole 8192-slot chunks from the end of the file plan) more live
 // slots than were still missing, after a later year file already contributed slots.
 func c12SpanGarbage(tfs int64, slots []c12Slot, q c12Q, n int) bool {
@@ -573,6 +574,7 @@ func c12Run(raw json.RawMessage) (res Result, err error) {
 	// ---- queries ----
 	res.Holds = true
 	anyGuard := false
+	spanSeen := false
 	sortedState := true
 	for i := 1; i < len(state); i++ {
 		if !c12Tle(state[i-1].T, state[i-1].NS, state[i].T, state[i].NS) {
@@ -671,7 +673,7 @@ func c12Run(raw json.RawMessage) (res Result, err error) {
 		}
 		span := in.Var && !scaled && !q.FromStart && q.N >= 1 && c12SpanGarbage(tfs, slots, q, q.N)
 		if span {
-			guard = false
+			spanSeen = true // pre-ca55ae9 class variable-last-limit-spans-year-files (fixed): tag only
 		}
 		if guard {
 			anyGuard = true
@@ -683,8 +685,6 @@ func c12Run(raw json.RawMessage) (res Result, err error) {
 			switch {
 			case scaled:
 				res.Class = "limit-scaled-by-timeframe-ratio"
-			case span:
-				res.Class = "variable-last-limit-spans-year-files"
 			case in.Var && !guard:
 				res.Class = "variable-limit-counts-intervals"
 			}
@@ -715,6 +715,9 @@ func c12Run(raw json.RawMessage) (res Result, err error) {
 		if q.ReqTF != in.TF {
 			res.Tags = append(res.Tags, "q:scaled-timeframe")
 		}
+	}
+	if spanSeen {
+		res.Tags = append(res.Tags, "q:last-spans-year-files")
 	}
 	if res.InDomain {
 		res.Tags = append(res.Tags, "in-domain")
